@@ -5,10 +5,11 @@
    RejectionLoop / advance / scan of solvers_via_adaptive_steps.py and of
    controllers.py); solver, error estimator and real-exponent power are
    arbitrary oracles subject only to the contracts listed as hypotheses.
-   Everything is conditional on the fuel sufficing ([run ... = Some _]). *)
+   Everything is conditional on the fuel sufficing ([run ... = Some _]); T06.9 at
+   the end shows that sufficient fuel exists for the rejection loop. *)
 From Coq Require Import List QArith Bool Lqa.
 From PD Require Import Model.Control Proofs.ControlProofs Generated.Constants
-  Proofs.ControlShipped.
+  Proofs.ControlShipped Proofs.ControlTermination.
 Import ListNotations.
 Local Open Scope Q_scope.
 
@@ -159,6 +160,36 @@ Theorem C06_shipped_constants_are_admissible :
   0 < cp_fmin src_integral_params /\ 0 < cp_fmin src_pi_params.
 Proof. exact C06_constants_ok. Qed.
 
+(* T06.9  TERMINATION.  For any solver and any error estimator that accepts
+   every step of size <= hmin (some hmin > 0), the rejection loop driven by the
+   controllers AS SHIPPED (parameters read from the source: safety < 1, so a
+   rejected step shrinks by at least max(factor_min, safety) < 1) returns after
+   finitely many attempts: there is a fuel bound n beyond which the model's loop
+   never answers None.  (Proofs/ControlTermination.v: geometric decrease +
+   Bernoulli/Archimedes over Q.)  Fuel is thus no restriction of the model. *)
+Theorem C06_rejection_loop_terminates_integral_controller :
+  forall (S E : Type) (time : S -> Q) (sstep : S -> Q -> S) (est : E -> S -> S -> Q -> Q * E)
+         (clip_dt : bool) (hmin : Q),
+    0 < hmin ->
+    (forall e s dt, 0 < dt -> dt <= hmin -> 1 <= fst (est e s (sstep s dt) dt)) ->
+    forall t1 (r : RS S E),
+      0 < rs_dt S E r -> (clip_dt = true -> time (rs_step_from S E r) < t1) ->
+      exists n : nat, forall fuel, (n <= fuel)%nat ->
+        exists r', rej_loop S E time sstep est (integral_apply src_integral_params) clip_dt fuel t1 r = Some r'.
+Proof. exact shipped_integral_loop_terminates. Qed.
+
+Theorem C06_rejection_loop_terminates_pi_controller :
+  forall (S E : Type) (time : S -> Q) (sstep : S -> Q -> S) (est : E -> S -> S -> Q -> Q * E)
+         (pw : Q -> Q -> Q) (clip_dt : bool) (hmin : Q),
+    (forall x e, x < 1 -> 0 <= pw x e <= 1) ->
+    0 < hmin ->
+    (forall e s dt, 0 < dt -> dt <= hmin -> 1 <= fst (est e s (sstep s dt) dt)) ->
+    forall t1 (r : RS S E),
+      0 < rs_dt S E r -> 1 <= rs_control S E r -> (clip_dt = true -> time (rs_step_from S E r) < t1) ->
+      exists n : nat, forall fuel, (n <= fuel)%nat ->
+        exists r', rej_loop S E time sstep est (pi_apply pw src_pi_params) clip_dt fuel t1 r = Some r'.
+Proof. exact shipped_pi_loop_terminates. Qed.
+
 Print Assumptions C06_time_advances_only_by_accepted_attempts.
 Print Assumptions C06_every_event_is_safe.
 Print Assumptions C06_every_checkpoint_reported_once_in_order.
@@ -167,3 +198,5 @@ Print Assumptions C06_rejection_loop_never_touches_step_from.
 Print Assumptions C06_shipped_integral_controller_is_admissible.
 Print Assumptions C06_shipped_pi_controller_is_admissible.
 Print Assumptions C06_shipped_constants_are_admissible.
+Print Assumptions C06_rejection_loop_terminates_integral_controller.
+Print Assumptions C06_rejection_loop_terminates_pi_controller.
